@@ -245,6 +245,20 @@ def run_string_main(prov, how):
             bad.append(("exception", "%s: %s" % (type(e).__name__, str(e).replace(d, "<dir>")[:120])))
         obs["failures"] = bad
         return not bad, obs
+    if how == "encoding":
+        # the encoding given for the main text is the encoding of the files it imports (as with model_from_file)
+        obs = {"provider": prov, "main": "string with encoding='latin-1' importing a latin-1 file"}
+        bad = []
+        with open(os.path.join(d, "lat.m"), "w", encoding="latin-1") as f:
+            f.write("i caf\u00e9")
+        try:
+            m = mm.model_from_str('import "%s" i x r caf\u00e9' % os.path.join(d, "lat.m"), encoding="latin-1")
+            if getattr(m.items[0].ref, "name", None) != "caf\u00e9":
+                bad.append(("reference into the latin-1 file", repr(getattr(m.items[0].ref, "name", None))))
+        except Exception as e:
+            bad.append(("exception", "%s: %s" % (type(e).__name__, str(e).replace(d, "<dir>")[:120])))
+        obs["failures"] = bad
+        return not bad, obs
     uri = "lib.m" if how == "search-path" else os.path.join(d, "lib.m")
     obs = {"provider": prov, "import_written_as": how, "main": "string"}
     bad = []
@@ -372,7 +386,7 @@ def run(ctx):
     import itertools
 
     gl = [(o, gr) for o in itertools.permutations(range(len(GLOB_FILES))) for gr in (False, True)]
-    gl += [(prov, how) for prov in ("PlainNameImportURI", "FQNImportURI") for how in ("absolute", "search-path", "empty-text-with-file-name")]
+    gl += [(prov, how) for prov in ("PlainNameImportURI", "FQNImportURI") for how in ("absolute", "search-path", "empty-text-with-file-name", "encoding")]
     gl += [("nested:" + w, gr) for w in ("scope-provider", "model-processor", "match-processor") for gr in (False, True)]
     ctx.pmap(work_glob, [gl[i:i + 8] for i in range(0, len(gl), 8)])
     ctx.states = ctx.evaluations
